@@ -51,6 +51,8 @@ type Cfg struct {
 	// to batch/split over a persistent queue): merge up to LegacyMin items, split above LegacyMax items.
 	LegacyMax int `json:"legacy_batch_max,omitempty"`
 	LegacyMin int `json:"legacy_batch_min,omitempty"`
+	// NoQueue: no sending queue and no batcher at all (retry/timeout only): ConsumeX is synchronous.
+	NoQueue bool `json:"no_queue,omitempty"`
 }
 
 // Script: requests (item counts) sent one after the other, a backend
@@ -69,6 +71,9 @@ type Script struct {
 	DelayUS  int `json:"delay_us"`
 	// Racers: requests offered concurrently with Shutdown (no obligation attached)
 	Racers int `json:"racers"`
+	// ShutdownDeadlineUS > 0: Shutdown is called with a context that expires after this long (the drain may
+	// well take longer); 0 = context.Background().
+	ShutdownDeadlineUS int `json:"shutdown_deadline_us,omitempty"`
 }
 
 var (
@@ -190,6 +195,10 @@ func options(cfg Cfg) ([]exporterhelper.Option, error) {
 		return nil, err
 	}
 	opts := []exporterhelper.Option{exporterhelper.WithQueue(q), exporterhelper.WithTimeout(exporterhelper.TimeoutConfig{Timeout: time.Duration(cfg.TimeoutMS) * time.Millisecond})}
+	if cfg.NoQueue {
+		q.Enabled = false
+		opts[0] = exporterhelper.WithQueue(q)
+	}
 	if cfg.LegacyMax > 0 {
 		b := exporterhelper.NewDefaultBatcherConfig()
 		b.Enabled = true
@@ -273,16 +282,43 @@ func runInner(s *Script) (bool, *vt.Finding) {
 		accepted bool
 	}
 	var reqs []*reqRec
+	var syncWG sync.WaitGroup
 	var next int64 = 1
 	for _, n := range s.Requests {
 		r := &reqRec{}
 		for i := 0; i < n; i++ {
 			r.ids = append(r.ids, next+int64(i))
 		}
+		if s.Cfg.NoQueue {
+			first := next
+			next += int64(n)
+			syncWG.Add(1)
+			go func() {
+				defer syncWG.Done()
+				_ = exp.Consume(context.Background(), payload(s.Cfg.Signal, first, n))
+			}()
+			continue // a synchronous call still running when shutdown arrives carries no obligation
+		}
 		err := exp.Consume(context.Background(), payload(s.Cfg.Signal, next, n))
 		next += int64(n)
 		r.accepted = err == nil
 		reqs = append(reqs, r)
+	}
+	// queue-less exporter: every caller must have made its first attempt before shutdown is requested, so that an
+	// export call beginning after Shutdown returned can only be a retry the helper failed to stop
+	allStarted := true
+	if s.Cfg.NoQueue {
+		deadline := time.After(2 * time.Second)
+	waitFirst:
+		for w.nCalls() < len(s.Requests) {
+			select {
+			case <-w.note:
+			case <-time.After(200 * time.Microsecond):
+			case <-deadline:
+				allStarted = false
+				break waitFirst
+			}
+		}
 	}
 	// shutdown instant
 	if s.WaitPush > 0 {
@@ -313,14 +349,26 @@ func runInner(s *Script) (bool, *vt.Finding) {
 		}()
 	}
 	var sderr error
-	ok, stacks := vt.WithWatchdog(15*time.Second, func() { sderr = exp.Shutdown(context.Background()) })
+	sctx, scancel := context.Background(), func() {}
+	if s.ShutdownDeadlineUS > 0 {
+		sctx, scancel = context.WithTimeout(context.Background(), time.Duration(s.ShutdownDeadlineUS)*time.Microsecond)
+	}
+	ok, stacks := vt.WithWatchdog(15*time.Second, func() { sderr = exp.Shutdown(sctx) })
+	scancel()
 	if !ok {
 		return true, vt.Failf("shutdown-blocks", "Shutdown did not return within 15s; cfg %+v\n%s", s.Cfg, trim(stacks))
 	}
 	inflightAtReturn := w.inflight.Load()
 	w.shutdownReturned.Store(true)
 	rwg.Wait()
-	if sderr != nil {
+	if s.Cfg.NoQueue {
+		// the callers' own synchronous calls are not the helper's to wait for; they must end promptly though
+		inflightAtReturn = 0
+		if okw, _ := vt.WithWatchdog(15*time.Second, syncWG.Wait); !okw {
+			return true, vt.Failf("sync-call-survives-shutdown", "a ConsumeX call (no queue, retry=%v) is still running 15s after Shutdown returned; cfg %+v", s.Cfg.Retry, s.Cfg)
+		}
+	}
+	if sderr != nil && s.ShutdownDeadlineUS == 0 {
 		return true, vt.Failf("shutdown-error", "Shutdown returned %v", sderr)
 	}
 	if inflightAtReturn != 0 {
@@ -329,6 +377,19 @@ func runInner(s *Script) (bool, *vt.Finding) {
 	// no export call may begin after shutdown has returned; no helper goroutine may be left
 	time.Sleep(3 * time.Millisecond)
 	leakErr := goleak.Find(ignore, goleak.IgnoreAnyFunction("go.opentelemetry.io/collector/verifharness/vt.WithWatchdog.func1"))
+	if !allStarted {
+		cS.Class("no-queue:callers-not-all-started")
+		w.lateStart.Store(0)
+	}
+	if s.Cfg.NoQueue {
+		// Without a queue Shutdown cannot join the callers' own ConsumeX calls: an attempt whose back-off timer fired
+		// in the same instant as the stop signal may still begin.  What must hold is that retrying STOPS: at most one
+		// such attempt per call that was in flight.
+		if n := w.lateStart.Load(); n > int64(len(s.Requests)) {
+			return true, vt.Failf("retry-continues-after-shutdown", "%d export calls began after Shutdown had returned, for %d synchronous calls in flight: the retry loop was not stopped; cfg %+v", n, len(s.Requests), s.Cfg)
+		}
+		w.lateStart.Store(0)
+	}
 	if n := w.lateStart.Load(); n > 0 {
 		return true, vt.Failf("export-after-shutdown", "%d export call(s) began after Shutdown had returned; cfg %+v", n, s.Cfg)
 	}
@@ -385,6 +446,12 @@ func runInner(s *Script) (bool, *vt.Finding) {
 		}
 	}
 	// classes
+	if s.ShutdownDeadlineUS > 0 {
+		cS.Class("shutdown-with-deadline")
+	}
+	if s.Cfg.NoQueue {
+		cS.Class("no-queue")
+	}
 	cS.Class(fmt.Sprintf("persistent:%v", s.Cfg.Persistent), fmt.Sprintf("batch:%v", s.Cfg.Batch), fmt.Sprintf("retry:%v", s.Cfg.Retry), fmt.Sprintf("legacy-batcher:%v", s.Cfg.LegacyMax > 0))
 	total := 0
 	for _, r := range reqs {
@@ -457,6 +524,9 @@ func gen(t *rapid.T) Script {
 		c.LegacyMax = rapid.IntRange(1, 4).Draw(t, "legacy_max")
 		c.LegacyMin = rapid.IntRange(0, c.LegacyMax).Draw(t, "legacy_min")
 	}
+	if !c.Persistent && !c.Batch && c.LegacyMax == 0 && rapid.IntRange(0, 5).Draw(t, "no_queue") == 0 {
+		c.NoQueue = true
+	}
 	c.QueueSize = rapid.SampledFrom([]int{3, 1000, 1000}).Draw(t, "queue_size")
 	c.Retry = rapid.Bool().Draw(t, "retry")
 	if c.Retry {
@@ -491,6 +561,10 @@ func gen(t *rapid.T) Script {
 	s.WaitPush = rapid.IntRange(0, 3).Draw(t, "wait_push")
 	s.DelayUS = rapid.SampledFrom([]int{0, 0, 50, 300, 2000}).Draw(t, "delay")
 	s.Racers = rapid.SampledFrom([]int{0, 0, 0, 1, 3}).Draw(t, "racers")
+	s.ShutdownDeadlineUS = rapid.SampledFrom([]int{0, 0, 0, 1, 300, 5000}).Draw(t, "shutdown_deadline")
+	if c.NoQueue {
+		s.Racers = 0
+	}
 	return s
 }
 
